@@ -141,6 +141,7 @@ def analyse(run):
         t = accepted_before.get(w['digest'])
         if t is None or t > w['t']:
             P['C05'].append(f"content {w['digest']} written without a preceding accepted test of the same token sequence")
+            P['C01'].append(f"content {w['digest']} written to the output file although the command was never run on (and accepted) a candidate with these tokens")
     # C05: chain / no stale adoption (hierarchical): base of the adopting sweep = previous content
     parsed = [e for e in ev if e['ev'] == 'parsed']
     cur = parsed[0]['digest'] if parsed else None
@@ -168,6 +169,10 @@ def analyse(run):
         elif e['ev'] == 'write':
             if e['digest'] != cur:
                 P['C05'].append(f"wrote {e['digest']} but the adopted input is {cur}")
+    for e in ev:
+        if e['ev'] == 'ddmin_result' and e.get('stale_base'):
+            P['C05'].append(f"a ddmin worker tested task {e['id']} against an input that had already been superseded (its cached copy was not the input the task carries)")
+            break
     # ddmin: adopted result must have been computed against the then-current input
     cur2 = parsed[0]['digest'] if parsed else None
     tb = {}
@@ -200,6 +205,7 @@ def analyse(run):
     else:
         if run.outtext is not None and run.rc == 0:
             P['C05'].append('output file exists although nothing was adopted')
+            P['C01'].append('an output file was written although no candidate was ever accepted')
     if not run.input_unmodified:
         P['C01'].append('the input file was modified')
     # C13: every sweep / task generator starts from a tree
